@@ -34,6 +34,12 @@ type hsPlan struct {
 	InitTimeoutMs int      `json:"init_timeout_ms"`
 	Fault         *hsFault `json:"fault,omitempty"`
 	Stale         bool     `json:"stale_file,omitempty"` // a file with the queue's name already exists
+	MmapFail      *hsMmap  `json:"mmap_fail,omitempty"`  // the n-th mmap of one side fails with ENOMEM
+}
+
+type hsMmap struct {
+	Proc int `json:"proc"` // 0 client, 1 server
+	N    int `json:"n"`    // 1-based
 }
 
 type hsScenario struct{}
@@ -63,6 +69,12 @@ func (hsScenario) Gen(r *Rng, tier string, opts map[string]string) interface{} {
 			f.Kind = "kill"
 		}
 		p.Fault = f
+	}
+	if r.Chance(1, 8) {
+		// failing system call: the first or second mapping of one side (queue and buffer memory, in the order that
+		// side maps them) cannot be established; no other fault in the same run
+		p.MmapFail = &hsMmap{Proc: r.Intn(2), N: 1 + r.Intn(2)}
+		p.Fault = nil
 	}
 	if v := opts["fault_k"]; v != "" {
 		f := &hsFault{Kind: "freeze"}
@@ -162,6 +174,16 @@ func (hsScenario) Run(s *simrt.Sim, plan interface{}, opts map[string]string) (*
 					}
 				}
 			}
+		}
+	}
+	if mf := p.MmapFail; mf != nil {
+		seen := 0
+		k.MmapFault = func(pr *simrt.Proc) bool {
+			if pr != procs[mf.Proc] {
+				return false
+			}
+			seen++
+			return seen == mf.N
 		}
 	}
 	main := func() {
@@ -294,7 +316,24 @@ func (hsScenario) Run(s *simrt.Sim, plan interface{}, opts map[string]string) (*
 			if ok1 {
 				who, other = 1, 0
 			}
-			simrt.FailTagged("C12.one_sided", tags, "session establishment succeeded on the %s but failed on the %s (%v)", names[who], names[other], errs[other])
+			t := map[string]string{}
+			for a, b := range tags {
+				t[a] = b
+			}
+			if who == 0 && !memfd && p.MmapFail != nil && p.MmapFail.Proc == 1 {
+				// protocol 2 (file mapping) has no acknowledgement: the client is done once it has sent the paths and
+				// cannot learn that the server failed to map them (finding F-V2NOACK). What it must do is notice the
+				// server's departure afterwards.
+				for i := 0; i < 5000 && !sess[0].IsClosed(); i++ {
+					simrt.Sleep(time.Millisecond)
+				}
+				if !sess[0].IsClosed() {
+					simrt.FailTagged("C12.one_sided_stays_open", tags, "the server failed to establish the session (%v) and closed the connection, but the client's session is still open 5 s later", errs[1])
+					return
+				}
+				t["v2_no_ack"] = "server_failed_after_metadata"
+			}
+			simrt.FailTagged("C12.one_sided", t, "session establishment succeeded on the %s but failed on the %s (%v)", names[who], names[other], errs[other])
 			return
 		}
 		// 2. after closing whatever was created nothing is left behind
